@@ -323,7 +323,7 @@ func init() {
 			"targets are the fixed list in harness/internal/monitor/c14.go, bound by name",
 			"termination is decided by the journal / two-stage hang rule and the memory watchdog; no model is needed",
 		},
-		Oracles:      map[string]func(*core.Ctx, *core.Case){"one": c14One, "sweep": c14Sweep},
+		Oracles:      map[string]func(*core.Ctx, *core.Case){"one": c14One, "sweep": c14Sweep, "concurrent-cold": c14ConcurrentCold},
 		StallSeconds: 30,
 		Exhaustive: func(tier string) (bool, string) {
 			if tier == "thorough" {
@@ -419,6 +419,14 @@ func init() {
 				}
 			}})
 		}
+		us = append(us, core.Unit{Name: "concurrent-cold", Weight: 30, Fresh: true, Run: func(c *core.Ctx) {
+			for ti := range c14Targets {
+				t := &c14Targets[ti]
+				k := &core.Case{Oracle: "concurrent-cold", Target: t.name, I: []int64{int64(c.R.Uint64() >> 1), 8, int64(c.Pick(300, 3000))}}
+				c.Do(k)
+				c.NonTrivial(k.Hash())
+			}
+		}})
 		us = append(us, core.Unit{Name: "verbose-logging", Weight: 30, Run: func(c *core.Ctx) {
 			for ti := range c14Targets {
 				t := &c14Targets[ti]
